@@ -126,7 +126,10 @@ Section RepairProofs.
   Proof.
     intro H. destruct (fold_files_ok pre s H) as [H1 H2]. unfold mt, modify_tree. fold (mn pre).
     destruct (fold_nodes (mn pre) s) as [nt ch]. cbn [fst snd] in *. rewrite finish_value.
-    destruct (readable s); [|apply files_ok_nil]. destruct ch; [exact H1 | apply H2; reflexivity].
+    destruct (readable s); [|apply files_ok_nil]. destruct ch; [|apply H2; reflexivity].
+    (* the stable sort only reorders siblings: the (path, node) pairs are the same *)
+    intros q n' Hin. apply H1. unfold paths in *. apply in_flat_map in Hin. destruct Hin as [x [Hx Hq]].
+    apply in_flat_map. exists x. split; [apply sort_tree_in; exact Hx | exact Hq].
   Qed.
 
   Lemma node_ok_all : forall d n, (depth_node n <= d)%nat -> node_ok n.
@@ -172,6 +175,10 @@ Section RepairProofs.
   Proof.
     unfold repair_tree. fold mt. apply tree_files_ok. intros x _. eapply node_ok_all. apply Nat.le_refl.
   Qed.
+  (* RESULT 3: a tree written by repair is in name order again (the marker suffix can move a file) *)
+  Lemma repair_result_sorted_lemma t st :
+    repair_tree has_data mark resize readable t = Changed st -> sorted_le st.
+  Proof. unfold repair_tree, modify_tree. apply finish_changed_sorted. Qed.
 End RepairProofs.
 
 (* ------------------------------------------------------------------ copy *)
